@@ -36,7 +36,10 @@ ASSUMPTIONS = [
     "parameters.reset() (documented for running several cases in one process) is called before each case so that the "
     "process-global 'assigned' flags are a function of the case",
     "each EdgeAssemblyChanger is used for one add (+ optional remove) as the armi callers do; restore is only called on the "
-    "changer that converted",
+    "changer that converted; one ThirdCoreHexToFullCoreChanger object may serve several convert/restore rounds (restore ends with "
+    "reset()), and a second restore right after a restore has nothing to undo ('if bool(self._newAssembliesAdded)') and must change nothing",
+    "children of blocks with a lattice may sit on a single off-centre site (IndexLocation) or at free coordinates (CoordinateLocation in the "
+    "block grid); HexBlock.rotate documents that both are rotated with the block",
     "hex reference geometry vp/model/hexmodel.py (cube-coordinate rotation, symmetry lines) is independent of armi",
 ]
 
@@ -350,6 +353,7 @@ class _Run:
         same = len(kids) == len(self.s3_assems) and all(x is y for x, y in zip(kids, self.s3_assems))
         out.check(same, sig + "/assemblies-not-the-same-objects", lambda: "children %s expected %s" % ([a.getName() for a in kids], [a.getName() for a in self.s3_assems]))
         now = self.snap()
+        within = []  # (params dict, name, actual value) accepted within 4 ulp
         if same and scaled_centre:
             # centre assembly: volume-integrated values went through *3 and /3
             ca = self.centre()
@@ -360,6 +364,7 @@ class _Run:
                     for name in vi:
                         if name in bexp["params"] and name in bnow["params"] and bexp["params"][name] != bnow["params"][name]:
                             if _leaves_close(bexp["params"][name], bnow["params"][name], 4):
+                                within.append((bnow["params"], name, bnow["params"][name]))
                                 bnow["params"][name] = bexp["params"][name]
         for n, bi, name in self.late:
             exp = self.s3["children"][n]["children"][bi]["params"]
@@ -410,7 +415,9 @@ class _Run:
                 out.check(_rel_ok(m[k], self.s3_mass[k], abs(self.s3_mass[k]), 1e-13), sig + "/mass-or-volume-differs",
                           lambda: "%s: %r after %s, %r before" % (k, m[k], what, self.s3_mass[k]))
         if len(out.violations) == nfail:
-            self.take_third_snapshot(snap=now, mass=m)  # equal to the expectation (centre values within 4 ulp taken as expected)
+            for params, name, actual in within:
+                params[name] = actual  # the next comparison is against what the core really holds now
+            self.take_third_snapshot(snap=now, mass=m)
         else:
             self.take_third_snapshot()
 
